@@ -115,6 +115,13 @@ def render_forwarding(o, i, fl, placement):
         L += ['def inner(%s):' % absig.render_params(i), '    return locals()',
               'def w0(%s):' % absig.render_params(hp + list(o)), '    return ' + call_text('h', o, fl),
               'w = functools.partial(w0, inner)', '']
+    elif placement == 'auto_param_method':
+        # the same through a BOUND METHOD: the partial binds the callee to the method's first parameter after self
+        kind = 'po' if o and o[0]['k'] == 'po' else 'pok'
+        hp = [{'n': 'self', 'k': kind, 'd': False, 'dv': 0, 'an': 0}, {'n': 'h', 'k': kind, 'd': False, 'dv': 0, 'an': 0}]
+        L += ['def inner(%s):' % absig.render_params(i), '    return locals()',
+              'class K(object):', '    def w0(%s):' % absig.render_params(hp + list(o)), '        return ' + call_text('h', o, fl),
+              'w = functools.partial(K().w0, inner)', '']
     elif placement == 'auto_hint':
         # behind a modifiers decorator: discovery runs on the wrapped function's source with the rewritten signature (the hint protocol)
         L += ['from sigtools import modifiers', 'def inner(%s):' % absig.render_params(i), '    return locals()',
